@@ -275,7 +275,25 @@ func c02(w *core.World, r *core.Report) {
 		}
 	}
 
-	// ---- OLD-PRIO-DELETE
+	// ---- OLD-PRIO-DELETE (shared with C01)
+	ruleOldPrioDelete(w, r, low)
+
+	// ---- SEP (shared with C11): the owner's path set (PathSet) and the keys index decide which stored entries are loaded and marked
+	ruleSEP(w, r)
+
+	// ---- EQUAL-FIELDS
+	r.Rule("EQUAL-FIELDS", 3, "cache.Update.EqualSkipPath compares owner, priority and value (all three fields in the backward slice of its result); LeafVariants.Add decides on it.")
+	{
+		sl := core.ReturnSlice(equal, -1)
+		for _, fld := range []string{"owner", "priority", "value"} {
+			r.Check(sl.HasFieldLoad("cache.Update."+fld), "EQUAL-FIELDS", core.Site(equal, "compares %s", fld), w.Pos(equal.Pos()), "two versions of an entry that differ in "+fld+" are not identical")
+		}
+	}
+}
+
+// ruleOldPrioDelete: shared by C01 and C02 (a stale version under the old priority is both a store defect and,
+// being live for the merge, a convergence defect).
+func ruleOldPrioDelete(w *core.World, r *core.Report, low *ssa.Function) {
 	r.Rule("OLD-PRIO-DELETE", 3, "cache contract: a delete addresses (path, priority, owner). lowlevelTransactionSet contains a Modify(INTENDED) whose Opts.Priority is the OLD intent's priority (GetOldIntent(name).GetPriority()), whose owner is the same intent's name, whose deletes are the old intent's complete path set (GetPathSet/GetUpdates of that old intent, not the per-transaction deletes), and whose execution does not depend on the new content of the intent (a delete intent has none).")
 	{
 		olds := oldPrioModifies(low)
@@ -338,18 +356,6 @@ func c02(w *core.World, r *core.Report) {
 				}
 			}
 			r.Check(okOwner, "OLD-PRIO-DELETE", core.Site(low, "old-priority delete owner"), w.InstrPos(m), "owner must be the intent's name")
-		}
-	}
-
-	// ---- SEP (shared with C11): the owner's path set (PathSet) and the keys index decide which stored entries are loaded and marked
-	ruleSEP(w, r)
-
-	// ---- EQUAL-FIELDS
-	r.Rule("EQUAL-FIELDS", 3, "cache.Update.EqualSkipPath compares owner, priority and value (all three fields in the backward slice of its result); LeafVariants.Add decides on it.")
-	{
-		sl := core.ReturnSlice(equal, -1)
-		for _, fld := range []string{"owner", "priority", "value"} {
-			r.Check(sl.HasFieldLoad("cache.Update."+fld), "EQUAL-FIELDS", core.Site(equal, "compares %s", fld), w.Pos(equal.Pos()), "two versions of an entry that differ in "+fld+" are not identical")
 		}
 	}
 }
@@ -572,6 +578,13 @@ func c09(w *core.World, r *core.Report) {
 	equal := w.Func("pkg/cache", "Update", "EqualSkipPath")
 	if add == nil || drop == nil || equal == nil {
 		return
+	}
+
+	// ---- INVOLVED-PATHS (shared with C01.PIPELINE-ORDER): a re-applied intent is a no-op only if every alternative of
+	// every intent's paths is in the tree; otherwise the unchanged value looks like the only one and is re-sent / deleted.
+	if low := w.Func("pkg/datastore", "Datastore", "lowlevelTransactionSet"); low != nil {
+		r.Rule("INVOLVED-PATHS", 3, "the set of paths for which the other intents' alternatives are loaded is ONE accumulator created before the per-intent loop, joined with the old and the new content of every intent, and the read skips the transaction's own intents. With a per-intent (overwritten) set, a multi-intent transaction that re-applies unchanged intents sees no alternatives for all but the last intent and computes a non-empty diff.")
+		ruleInvolvedPaths(w, r, low, "INVOLVED-PATHS")
 	}
 
 	// ---- EQUAL-BRANCH
